@@ -72,9 +72,15 @@ type c11Job struct {
 	N       int        `json:"n,omitempty"`    // free: number of events (derived from Seed)
 	Seed    int64      `json:"seed,omitempty"`
 	Sinks   int        `json:"sinks,omitempty"` // free: 1 = all events to one sink, 2 = two sinks
-	Burst   bool       `json:"burst,omitempty"` // free: AddEvent all at once instead of AddEventAndWait feeders
-	Static  []string   `json:"captured_writes,omitempty"`
-	Note    string     `json:"note,omitempty"`
+	// script variant: 0 plain; 1 the scope in which the sinks are declared holds its own variable
+	// `event` (the one name the action closure binds) set to a sentinel; 2 as 1, and sink bodies
+	// and the shared global function read and write global variables from inside nested
+	// for / if / try / mutex blocks (Loop iterations per invocation)
+	Variant int      `json:"variant,omitempty"`
+	Loop    int      `json:"loop,omitempty"`
+	Burst   bool     `json:"burst,omitempty"` // free: AddEvent all at once instead of AddEventAndWait feeders
+	Static  []string `json:"captured_writes,omitempty"`
+	Note    string   `json:"note,omitempty"`
 }
 
 const c11FreeNote = "free-running overlap: the events are derived from seed and n (event i has id i+1, its kind is drawn from the seed, type/detail/data are functions of the id); the schedule is whatever the pool does and is not reproducible - a replay runs the same stream again and may or may not meet the same overlap; the enforced two-invocation schedules are the deterministic witnesses"
@@ -96,6 +102,11 @@ type c11Result struct {
 	Problem     string   `json:"problem,omitempty"` // no-progress: ...
 	Nudges      int      `json:"nudges"`
 	HookMissing bool     `json:"hook_missing,omitempty"`
+	OuterAfter  int      `json:"outer_after"`          // number found in the global `event` afterwards (0: none / not a number)
+	OuterNote   string   `json:"outer_note,omitempty"` // what else was found there
+	Counter     int      `json:"counter"`              // mutex-protected global counter afterwards
+	CounterWant int      `json:"counter_want"`
+	MapBad      int      `json:"map_bad"` // events whose own key of the global map is missing or wrong
 }
 
 func c11Payload(id, kind, sink int) c11Event {
@@ -128,19 +139,16 @@ func c11FreeEvents(j c11Job) []c11Event {
 
 // ---------------------------------------------------------------------------- child side
 
-const c11Script = `
-func echo(x) {
-    y := x
-    return y
-}
-sink s1
-    kindmatch [ "c11.a" ]
+const c11Sentinel = 4242
+
+const c11SinkBody = `
 {
     id1 := event.state.id
     loc := id1
     mid(id1)
     id2 := event.state.id
     g := echo(loc)
+@GLOBALS@
     report(id1, id2, loc, g)
     k := event.state.kind
     if k == 1 {
@@ -152,33 +160,54 @@ sink s1
     if k == 3 {
         return event.state.data
     }
-}
-sink s2
-    kindmatch [ "c11.b" ]
-{
-    id1 := event.state.id
-    loc := id1
-    mid(id1)
-    id2 := event.state.id
-    g := echo(loc)
-    report(id1, id2, loc, g)
-    k := event.state.kind
-    if k == 1 {
-        raise(event.state.ty, event.state.detail, event.state.data)
-    }
-    if k == 2 {
-        x := 1 + "a"
-    }
-    if k == 3 {
-        return event.state.data
-    }
-}
-sink nudge
-    kindmatch [ "c11.nudge" ]
-{
-    n := 1
 }
 `
+
+// c11Script builds the program of a variant (see c11Job.Variant).
+func c11Script(variant int) string {
+	var sb strings.Builder
+	if variant >= 1 {
+		// declared BEFORE the sinks, in the scope the sinks are declared in
+		fmt.Fprintf(&sb, "event := %d\n", c11Sentinel)
+	}
+	globals := ""
+	echoGlobals := ""
+	if variant >= 2 {
+		sb.WriteString("counter := 0\nlimit := 1\ngmap := {}\n")
+		// a shared global function which does global bookkeeping from nested blocks
+		echoGlobals = `
+    if limit > 0 {
+        for j in range(1, 2) {
+            mutex cnt {
+                counter := counter + 1
+            }
+        }
+    }`
+		// every invocation: Loop times a mutex-protected increment of the global counter from
+		// inside for/if/mutex blocks, an unsynchronised write to its OWN key of a global map
+		// from inside for/try blocks, reads of a global from inside the blocks
+		globals = `
+    key := event.state.key
+    for i in range(1, event.state.n) {
+        if limit > 0 {
+            mutex cnt {
+                counter := counter + 1
+            }
+        }
+        try {
+            gmap[key] := id1 + limit - 1
+        } except {
+            gmap[key] := 0 - 1
+        }
+    }`
+	}
+	sb.WriteString("func echo(x) {\n    y := x" + echoGlobals + "\n    return y\n}\n")
+	body := strings.Replace(c11SinkBody, "@GLOBALS@", globals, 1)
+	sb.WriteString("sink s1\n    kindmatch [ \"c11.a\" ]" + body)
+	sb.WriteString("sink s2\n    kindmatch [ \"c11.b\" ]" + body)
+	sb.WriteString("sink nudge\n    kindmatch [ \"c11.nudge\" ]\n{\n    n := 1\n}\n")
+	return sb.String()
+}
 
 // c11Inv is one invocation as the controller sees it.
 type c11Inv struct {
@@ -198,6 +227,9 @@ type c11Inv struct {
 
 type c11Engine struct {
 	workers   int
+	variant   int
+	vs        parser.Scope
+	loop      atomic.Int64
 	erp       *interpreter.ECALRuntimeProvider
 	proc      engine.Processor
 	byMonitor sync.Map // engine.Monitor -> *c11Inv
@@ -261,8 +293,8 @@ func (e *c11Engine) hold(inv *c11Inv, p int) {
 	<-inv.release
 }
 
-func c11NewEngine(workers int) (*c11Engine, error) {
-	e := &c11Engine{workers: workers}
+func c11NewEngine(workers, variant int) (*c11Engine, error) {
+	e := &c11Engine{workers: workers, variant: variant}
 	e.erp = interpreter.NewECALRuntimeProvider("c11", nil, nil)
 	e.erp.Processor = engine.NewProcessor(workers)
 	e.erp.Processor.SetFailOnFirstErrorInTriggerSequence(true)
@@ -270,9 +302,10 @@ func c11NewEngine(workers int) (*c11Engine, error) {
 	vs := scope.NewScope(scope.GlobalScope)
 	vs.SetValue("mid", &c11Func{"mid", e})
 	vs.SetValue("report", &c11Func{"report", e})
-	if _, err := evalProgram("c11", c11Script, vs, e.erp); err != nil {
-		return nil, fmt.Errorf("the C11 script does not evaluate: %v", err)
+	if _, err := evalProgram("c11", c11Script(variant), vs, e.erp); err != nil {
+		return nil, fmt.Errorf("the C11 script (variant %d) does not evaluate: %v\n%s", variant, err, c11Script(variant))
 	}
+	e.vs = vs
 	e.proc.Start()
 	return e, nil
 }
@@ -288,6 +321,7 @@ func (e *c11Engine) newInv(idx int, ev c11Event) *c11Inv {
 	inv.event = engine.NewEvent(name, strings.Split(kind, "."), map[interface{}]interface{}{
 		"id": float64(ev.ID), "kind": float64(ev.Kind), "ty": fmt.Sprintf("T%d", ev.Ty),
 		"detail": fmt.Sprintf("D%d", ev.Detail), "data": float64(ev.Data),
+		"key": fmt.Sprintf("k%d", ev.ID), "n": float64(e.loop.Load()),
 	})
 	inv.rm = e.proc.NewRootMonitor(nil, nil)
 	inv.rm.SetFinishHandler(func(p engine.Processor) {
@@ -410,11 +444,64 @@ func (e *c11Engine) observe(inv *c11Inv) c11Obs {
 	return o
 }
 
+// resetGlobals puts the global variables of the variant back before a job.
+func (e *c11Engine) resetGlobals(j c11Job) {
+	loop := j.Loop
+	if loop < 1 {
+		loop = 1
+	}
+	e.loop.Store(int64(loop))
+	if e.variant >= 1 {
+		e.vs.SetValue("event", float64(c11Sentinel))
+	}
+	if e.variant >= 2 {
+		e.vs.SetValue("counter", float64(0))
+		e.vs.SetValue("gmap", map[interface{}]interface{}{})
+	}
+}
+
+// observeGlobals reads them after all invocations of the job returned.
+func (e *c11Engine) observeGlobals(invs []*c11Inv, res *c11Result) {
+	if e.variant >= 1 {
+		v, ok, _ := e.vs.GetValue("event")
+		switch x := v.(type) {
+		case float64:
+			res.OuterAfter = int(x)
+		default:
+			res.OuterNote = fmt.Sprintf("declared=%v value of type %T", ok, v)
+			if m, isMap := v.(map[interface{}]interface{}); isMap {
+				res.OuterNote = fmt.Sprintf("the event map of %v", m["name"])
+			}
+		}
+	}
+	if e.variant >= 2 {
+		if v, _, _ := e.vs.GetValue("counter"); v != nil {
+			if x, ok := v.(float64); ok {
+				res.Counter = int(x)
+			} else {
+				res.Counter = -1
+			}
+		}
+		res.CounterWant = len(invs) * (int(e.loop.Load()) + 2)
+		v, _, _ := e.vs.GetValue("gmap")
+		m, _ := v.(map[interface{}]interface{})
+		for _, inv := range invs {
+			if x, ok := m[fmt.Sprintf("k%d", inv.ev.ID)].(float64); !ok || int(x) != inv.ev.ID {
+				res.MapBad++
+			}
+		}
+		if len(m) != len(invs) {
+			res.MapBad++
+		}
+	}
+}
+
 const c11StepTimeout = 20 * time.Second
 
 // controlled runs one enforced schedule.
 func (e *c11Engine) controlled(j c11Job, res *c11Result) {
 	e.free.Store(false)
+	e.resetGlobals(j)
 	invs := make([]*c11Inv, len(j.Events))
 	for i, ev := range j.Events {
 		invs[i] = e.newInv(i, ev)
@@ -516,11 +603,13 @@ func (e *c11Engine) controlled(j c11Job, res *c11Result) {
 	for _, inv := range invs {
 		res.Obs = append(res.Obs, e.observe(inv))
 	}
+	e.observeGlobals(invs, res)
 }
 
 // freeRun lets all events overlap as the pool pleases.
 func (e *c11Engine) freeRun(j c11Job, res *c11Result) {
 	e.free.Store(true)
+	e.resetGlobals(j)
 	evs := c11FreeEvents(j)
 	invs := make([]*c11Inv, len(evs))
 	for i, ev := range evs {
@@ -576,6 +665,7 @@ func (e *c11Engine) freeRun(j c11Job, res *c11Result) {
 	for _, inv := range invs {
 		res.Obs = append(res.Obs, e.observe(inv))
 	}
+	e.observeGlobals(invs, res)
 }
 
 func c11Child(spec string) {
@@ -613,10 +703,10 @@ func c11Child(spec string) {
 	})
 	out := bufio.NewWriter(os.Stdout)
 	for _, it := range jobs {
-		w := it.Job.Workers
+		w := it.Job.Workers*10 + it.Job.Variant
 		e := engines[w]
 		if e == nil {
-			if e, err = c11NewEngine(w); err != nil {
+			if e, err = c11NewEngine(it.Job.Workers, it.Job.Variant); err != nil {
 				fmt.Fprintln(os.Stderr, "c11 child:", err)
 				os.Exit(3)
 			}
@@ -782,6 +872,14 @@ func c11CoqPay(e c11Event) string {
 	return fmt.Sprintf("P %d %d %d %d %d", e.ID, e.Kind, e.Ty, e.Detail, e.Data)
 }
 
+// c11CoqOuter: the global variable `event` before and after (0 0 when the variant declares none).
+func c11CoqOuter(j c11Job, r c11Result) string {
+	if j.Variant < 1 {
+		return "0 0"
+	}
+	return fmt.Sprintf("%d %d", c11Sentinel, r.OuterAfter)
+}
+
 // c11CoqCase: one enforced schedule = one case.
 func c11CoqCase(id int, j c11Job, r c11Result) string {
 	ps := make([]string, len(j.Events))
@@ -796,7 +894,7 @@ func c11CoqCase(id int, j c11Job, r c11Result) string {
 	for i, o := range r.Obs {
 		os_[i] = c11CoqObs(o)
 	}
-	return fmt.Sprintf("mkCase %d %s %s %s", id, CoqList(ps), CoqList(ds), CoqList(os_))
+	return fmt.Sprintf("mkCase %d %s %s %s %s", id, CoqList(ps), CoqList(ds), CoqList(os_), c11CoqOuter(j, r))
 }
 
 // c11RepoDir is the directory of the ecal module this binary was built against.
@@ -932,6 +1030,9 @@ func c11Jobs(c *Ctx) []c11Job {
 	ctl("A held inside the body; B completely; A continues", 2, [][2]int{{0, 4}, {1, 8}, {0, 8}}, c11Payload(1, 1, 0), c11Payload(2, 0, 0))
 	ctl("A held inside the body; B held before return; A returns; B returns", 2, [][2]int{{0, 4}, {1, 7}, {0, 8}, {1, 8}}, c11Payload(1, 0, 0), c11Payload(2, 1, 0))
 	ctl("different sinks: A fails, held before return; B succeeds; A returns", 2, [][2]int{{0, 7}, {1, 8}, {0, 8}}, c11Payload(1, 1, 0), c11Payload(2, 0, 1))
+	jobs = append(jobs, c11Job{Mode: "controlled", Name: "a global variable `event` exists: A fails, held inside the body; B succeeds completely; A continues", Workers: 2, Variant: 1,
+		Dirs: [][2]int{{0, 4}, {1, 8}, {0, 8}}, Events: []c11Event{c11Payload(1, 1, 0), c11Payload(2, 0, 0)}})
+	jobs = append(jobs, c11Job{Mode: "free", Name: "global bookkeeping from nested blocks, 8 workers", Workers: 8, N: 120, Seed: 11, Sinks: 2, Variant: 2, Loop: 24, Note: c11FreeNote})
 
 	// all enforced schedules of two invocations x outcome pairs x same/different sink
 	kindPairs := [][2]int{{1, 0}, {0, 1}, {1, 2}, {3, 1}}
@@ -957,6 +1058,27 @@ func c11Jobs(c *Ctx) []c11Job {
 		}
 	}
 	c.Extra["two_invocation_schedules"] = shapes
+	// the same schedules with a global variable `event` (variant 1) and with global
+	// bookkeeping from nested blocks (variant 2)
+	vk := 0
+	for _, ca := range c11Chains {
+		for _, cb := range c11Chains {
+			for _, dirs := range c11Merges([][]int{ca, cb}) {
+				vk++
+				kps := [][2]int{{1, 0}, {0, 1}}
+				if c.Thorough() {
+					kps = kindPairs
+				}
+				for _, kp := range kps {
+					jobs = append(jobs, c11Job{Mode: "controlled", Workers: 2, Dirs: dirs, Variant: 1,
+						Events: []c11Event{c11Payload(1, kp[0], 0), c11Payload(2, kp[1], 0)}})
+				}
+				kp := kindPairs[vk%len(kindPairs)]
+				jobs = append(jobs, c11Job{Mode: "controlled", Workers: 2, Dirs: dirs, Variant: 2, Loop: 2,
+					Events: []c11Event{c11Payload(1, kp[0], 0), c11Payload(2, kp[1], vk%2)}})
+			}
+		}
+	}
 	// random enforced schedules of three and four invocations
 	for i := 0; i < c.Pick(150, 3000); i++ {
 		n := 3 + c.Rng.Intn(2)
@@ -985,11 +1107,16 @@ func c11Jobs(c *Ctx) []c11Job {
 		}
 		ctl("", n, dirs, evs...)
 	}
-	// free-running overlap
+	// free-running overlap: per worker count streams of every script variant
 	for _, w := range []int{2, 3, 4, 8, 16} {
-		for s := 0; s < c.Pick(2, 8); s++ {
-			jobs = append(jobs, c11Job{Mode: "free", Workers: w, N: c.Pick(200, 1000), Seed: c.Seed*1000 + int64(w*100+s),
-				Sinks: 1 + s%2, Burst: s%4 >= 2, Note: c11FreeNote})
+		for s := 0; s < c.Pick(3, 9); s++ {
+			j := c11Job{Mode: "free", Workers: w, N: c.Pick(200, 1000), Seed: c.Seed*1000 + int64(w*100+s),
+				Sinks: 1 + (s/3+s)%2, Burst: s%2 == 1, Variant: s % 3, Note: c11FreeNote}
+			if j.Variant == 2 {
+				j.Loop = 24
+				j.N = c.Pick(200, 600)
+			}
+			jobs = append(jobs, j)
 		}
 	}
 	return jobs
@@ -1021,7 +1148,15 @@ func c11Emit(c *Ctx, j c11Job, r c11Result, okRes bool) {
 		c.Dist[fmt.Sprintf("event_kind_%d", e.Kind)]++
 	}
 	c.Dist["mode_"+j.Mode]++
+	c.Dist[fmt.Sprintf("variant_%d_%s", j.Variant, j.Mode)]++
 	c.Dist[fmt.Sprintf("workers_%d", j.Workers)]++
+	if j.Variant >= 2 && (r.Counter != r.CounterWant || r.MapBad != 0) {
+		// oracle without a model: updates of global variables made inside nested blocks
+		c.Violate("shared-globals", fmt.Sprintf("global bookkeeping done by overlapping invocations from inside nested blocks is wrong: the counter incremented only inside `mutex cnt { }` is %d, expected %d; %d events do not find their own key of the global map", r.Counter, r.CounterWant, r.MapBad), j)
+	}
+	if j.Variant >= 1 && r.OuterAfter != c11Sentinel && r.OuterNote != "" {
+		c.Notes = append(c.Notes, "global `event` after the job: "+r.OuterNote)
+	}
 	c.Dist["invocations"] += len(evs)
 	if r.Nudges > 0 {
 		c.Dist["pool_nudges"] += r.Nudges
@@ -1035,7 +1170,7 @@ func c11Emit(c *Ctx, j c11Job, r c11Result, okRes bool) {
 		}
 		for i, e := range evs {
 			id := c.NewID()
-			term := fmt.Sprintf("mkCase %d [%s] [] [%s]", id, c11CoqPay(e), c11CoqObs(r.Obs[i]))
+			term := fmt.Sprintf("mkCase %d [%s] [] [%s] %s", id, c11CoqPay(e), c11CoqObs(r.Obs[i]), c11CoqOuter(j, r))
 			c.AddCase(id, term, j, fmt.Sprintf("%s#%d", key, i), e.Kind != 0)
 		}
 		return
